@@ -55,6 +55,7 @@ pub enum OpKind {
 
 /// a run that performs more transport operations than this is cut off and reported as wedged
 pub const OP_BUDGET: u64 = 40_000_000;
+pub const EVENT_CAP: usize = 6_000_000;
 
 pub struct World {
     // ---- static
@@ -109,6 +110,8 @@ pub struct World {
     pub persistent: Option<FaultKind>,
     pub eof_injected: bool,
     pub eintr_fired: u32,
+    /// flush() calls so far (faulted ones included)
+    pub flush_calls: u64,
     pub short_writes: u32,
     pub log_events: bool,
     pub last_cb_op: u64,
@@ -241,6 +244,7 @@ impl World {
             persistent: None,
             eof_injected: false,
             eintr_fired: 0,
+            flush_calls: 0,
             short_writes: 0,
             log_events: true,
             last_cb_op: 0,
@@ -261,7 +265,9 @@ impl World {
 
     #[inline]
     fn ev(&mut self, e: Ev) {
-        if self.log_events {
+        // the log of a run that spins on the transport is cut (deterministically) rather than
+        // allowed to eat the machine's memory before the operation budget ends the run
+        if self.log_events && self.events.len() < EVENT_CAP {
             self.events.push(e);
         }
     }
@@ -303,7 +309,8 @@ impl World {
         let mut hit = None;
         for f in &self.faults {
             let read_hit = kind == OpKind::Read && self.read_idx > 0 && f.at == FaultAt::Read(self.read_idx - 1);
-            if f.at == FaultAt::Op(op) || read_hit {
+            let flush_hit = kind == OpKind::Flush && self.flush_calls > 0 && f.at == FaultAt::Flush(self.flush_calls - 1);
+            if f.at == FaultAt::Op(op) || read_hit || flush_hit {
                 hit = Some((f.kind.clone(), f.persistent));
                 break;
             }
@@ -595,6 +602,10 @@ impl Write for SimStream {
         w.op += 1;
         let widx = w.write_idx;
         w.write_idx += 1;
+        if op > OP_BUDGET {
+            w.op_budget_exceeded = true;
+            return Err(io::Error::new(io::ErrorKind::Other, "simulator: operation budget exceeded"));
+        }
         if let Some(f) = w.fault_at(op, OpKind::Write) {
             match f {
                 FaultKind::Eof => {
@@ -657,6 +668,11 @@ impl Write for SimStream {
         let mut w = self.w.borrow_mut();
         let op = w.op;
         w.op += 1;
+        w.flush_calls += 1;
+        if op > OP_BUDGET {
+            w.op_budget_exceeded = true;
+            return Err(io::Error::new(io::ErrorKind::Other, "simulator: operation budget exceeded"));
+        }
         if let Some(f) = w.fault_at(op, OpKind::Flush) {
             let k = match f {
                 FaultKind::Err(k) => k,
